@@ -306,6 +306,39 @@ def run(ctx, driver):
             TRIPLES.append(("h1Send" if proto == "h1" else "h2Send", "callerInvalid", outcome, payload))
             if outcome != "error:LocalProtocolError":
                 rec.fail("invalid-request-not-localprotocolerror", {"proto": proto, "what": what, "got": detail or outcome}, payload)
+    # ---- several requests sharing one HTTP/2 connection, faults at any operation, cancellation at any point ---------------
+    import h2x
+    for i in range(60 if ctx.quick else 1500):
+        cfg = {"max_connections": rng.choice([1, 2]), "callers": rng.randint(2, 5), "p_fault": 0.3, "p_cancel": rng.choice([0.0, 0.2]),
+               "cancel_phase": "any", "p_goaway": 0.1, "p_eof": 0.05, "p_rst": 0.1, "segment": rng.choice(["whole", "coarse", "fine"]),
+               "init_max_streams": rng.choice([1, 2, 10]), "ups": [0, 0, 300, 70000], "max_steps": 120}
+        seed = rng.randrange(1 << 30)
+        rt = ("asyncio", "trio")[i % 2]
+        ex = h2x.run_one(rt, cfg, seed)
+        rec.evals += 1
+        rec.distinct.add(("h2x", rt, tuple(map(str, ex.trace))))
+        for c in ex.callers:
+            rec.dist[f"h2-concurrent:{c.outcome}"] += 1
+            if c.outcome == "error:Other":
+                cls = getattr(c, "exc", "?").split("(")[0]
+                rec.fail("undocumented-exception", {"proto": "h2-concurrent", "class": cls},
+                         {"runtime": rt, "cfg": cfg, "seed": seed, "caller": c.idx, "exception": getattr(c, "exc", None),
+                          "trace": [list(map(str, t)) for t in ex.trace][-40:], "how_to_replay": "h2x.run_one(runtime, cfg, seed)"})
+    # the same, directed: three requests start together; the k-th network operation fails
+    for k in range(14):
+        for timeout in (False, True):
+            cfg = {"max_connections": 1, "callers": 3, "spawn_all_first": True, "max_steps": 0, "fault_at": k, "fault_timeout": timeout,
+                   "ups": [0, 300], "init_max_streams": 10}
+            ex = h2x.run_one("asyncio", cfg, k)
+            rec.evals += 1
+            rec.distinct.add(("h2x-directed", k, timeout))
+            for c in ex.callers:
+                rec.dist[f"h2-concurrent:{c.outcome}"] += 1
+                if c.outcome == "error:Other":
+                    cls = getattr(c, "exc", "?").split("(")[0]
+                    rec.fail("undocumented-exception", {"proto": "h2-concurrent", "class": cls},
+                             {"runtime": "asyncio", "cfg": cfg, "seed": k, "caller": c.idx, "exception": getattr(c, "exc", None),
+                              "trace": [list(map(str, t)) for t in ex.trace][-40:], "how_to_replay": "h2x.run_one(runtime, cfg, seed)"})
     # ---- the surface table of the model predicts the class for every (stage, cause) that occurred -------------------------
     if driver:
         keys = sorted(set((st, ca) for st, ca, _, _ in TRIPLES if st))
